@@ -27,6 +27,9 @@
 #include "CoreParams.hh"
 #include "CoreState.hh"
 #include "Debug.hh"
+#ifdef CELERITAS_VERIF
+#    include "corecel/sys/VerifHooks.hh"
+#endif
 
 namespace celeritas
 {
@@ -66,6 +69,9 @@ void ActionSequence::begin_run(CoreParams const& params, CoreState<M>& state)
     for (auto const& sp_action : actions_.begin_run())
     {
         ScopedProfiling profile_this{sp_action->label()};
+#ifdef CELERITAS_VERIF
+        CELER_VERIF_YIELD("begin-run-action");
+#endif
         sp_action->begin_run(params, state);
     }
 }
@@ -106,6 +112,9 @@ void ActionSequence::step(CoreParams const& params, CoreState<M>& state)
             {
                 ScopedProfiling profile_this{action.label()};
                 Stopwatch get_time;
+#ifdef CELERITAS_VERIF
+                CELER_VERIF_YIELD("step-action");
+#endif
                 action.step(params, state);
                 if constexpr (M == MemSpace::device)
                 {
@@ -127,6 +136,9 @@ void ActionSequence::step(CoreParams const& params, CoreState<M>& state)
             if (auto const& action = *sp_action; !skip_post_action(action))
             {
                 ScopedProfiling profile_this{action.label()};
+#ifdef CELERITAS_VERIF
+                CELER_VERIF_YIELD("step-action");
+#endif
                 action.step(params, state);
                 if (CELER_UNLIKELY(status_checker_))
                 {
